@@ -50,7 +50,7 @@ fn content_strategy() -> impl Strategy<Value = NodeContent> {
 }
 
 fn case_strategy() -> BoxedStrategy<Case> {
-    (proptest::collection::vec(content_strategy(), 2..=3), 2u8..=4, proptest::collection::vec(any::<u16>(), 0..60), prop_oneof![3 => Just(false), 1 => Just(true)], prop_oneof![5 => Just(false), 1 => Just(true)])
+    (proptest::collection::vec(content_strategy(), 2..=vh_core::depth(3, 4)), 2u8..=(vh_core::depth(4, 6) as u8), proptest::collection::vec(any::<u16>(), 0..vh_core::depth(60, 160)), prop_oneof![3 => Just(false), 1 => Just(true)], prop_oneof![5 => Just(false), 1 => Just(true)])
         .prop_map(|(nodes, rounds, sched, stranger, far_known)| Case { nodes, rounds, sched, stranger, far_known })
         .boxed()
 }
